@@ -2,6 +2,7 @@ use crate::{
   global::VALUE_ERROR_NAME,
   native, native_with_error,
   support::{export_and_insert, load_class_from_module},
+  try_rooted,
   StdResult,
 };
 use laythe_core::{
@@ -616,17 +617,21 @@ impl LyNative for IterReduce {
     let mut accumulator = args[1];
     let callable = args[2];
 
-    hooks.push_root(accumulator);
-    hooks.push_root(callable);
-
     let mut iter = args[0].to_obj().to_enumerator();
 
-    while !is_falsey(iter.next(hooks)?) {
+    loop {
+      // only this native holds the accumulator while the iterator advances
+      hooks.push_root(accumulator);
+      let next = iter.next(hooks);
+      hooks.pop_roots(1);
+
+      if is_falsey(next?) {
+        break;
+      }
+
       let current = iter.current();
       accumulator = hooks.call(callable, &[accumulator, current])?;
     }
-
-    hooks.pop_roots(2);
 
     Call::Ok(accumulator)
   }
@@ -661,9 +666,9 @@ impl LyNative for IterEach {
 
     hooks.push_root(callable);
 
-    while !is_falsey(iter.next(hooks)?) {
+    while !is_falsey(try_rooted!(hooks, 1, iter.next(hooks))) {
       let current = iter.current();
-      hooks.call(callable, &[current])?;
+      try_rooted!(hooks, 1, hooks.call(callable, &[current]));
     }
 
     hooks.pop_roots(1);
@@ -718,7 +723,7 @@ impl Enumerate for ZipIterator {
 
     hooks.push_root(results);
     for (iter, slot) in &mut self.iters.iter_mut().zip(results.iter_mut()) {
-      let next = iter.next(hooks)?;
+      let next = try_rooted!(hooks, 1, iter.next(hooks));
 
       if is_falsey(next) {
         hooks.pop_roots(1);
@@ -889,9 +894,9 @@ impl LyNative for IterAll {
 
     hooks.push_root(callable);
 
-    while !is_falsey(iter.next(hooks)?) {
+    while !is_falsey(try_rooted!(hooks, 1, iter.next(hooks))) {
       let current = iter.current();
-      if is_falsey(hooks.call(callable, &[current])?) {
+      if is_falsey(try_rooted!(hooks, 1, hooks.call(callable, &[current]))) {
         hooks.pop_roots(1);
         return Call::Ok(val!(false));
       }
@@ -911,9 +916,9 @@ impl LyNative for IterAny {
 
     hooks.push_root(callable);
 
-    while !is_falsey(iter.next(hooks)?) {
+    while !is_falsey(try_rooted!(hooks, 1, iter.next(hooks))) {
       let current = iter.current();
-      if !is_falsey(hooks.call(callable, &[current])?) {
+      if !is_falsey(try_rooted!(hooks, 1, hooks.call(callable, &[current]))) {
         hooks.pop_roots(1);
         return Call::Ok(val!(true));
       }
@@ -936,7 +941,7 @@ impl LyNative for IterToList {
 
     hooks.push_root(list);
 
-    while !is_falsey(iter.next(hooks)?) {
+    while !is_falsey(try_rooted!(hooks, 1, iter.next(hooks))) {
       list.push(iter.current(), &hooks.as_gc());
     }
 
